@@ -85,7 +85,14 @@ ENTRY = {'coq_dir': 'C07',
                'inside the poll of the accept future whose completion the manager consumes in the same poll (so Closed can never overtake '
                'AcceptDone), the manager never awaits a protocol channel (try_send only); the try_get_permit failure path is taken in every quick '
                'run by the loop-level stream (about 10% of its cases end through it; end to end it stays rare: step 20). A live protocol that never '
-               'drains its channel holds back the reports of every connection (back-pressure by design; assumed not to happen for liveness).',
+               'drains its channel holds back the reports of every connection (back-pressure by design; assumed not to happen for liveness). '
+               'Unstable observation (kept honest): once in about 100000 loop-level cases (thorough run, seed 2, loaded machine) a hold case saw the '
+               'loop end through the `None` command although an unanswered negotiation should still have held a permit (replays/C07-2-7076.case); it '
+               'did not reproduce in 300 solo replays nor in 90000 further cases under load, the only timed element is the 30 s open timeout of hold '
+               'cases; such a case now goes through the reproduction guard of ./check (cfg replay_rewrites_case), and C07_LOOP_TRAP=1 makes the '
+               "harness dump the loop's debug log if it happens again. Corrected false alarm of the end-to-end oracle: step 14 (connect while a "
+               'protocol exits) towards a node WITHOUT any protocol left announces and closes the new connection at once; the clause `the exit of '
+               'one protocol closes nothing` looked at the exiting node only (corpus/C07/oracle_new_connection_to_node_without_protocols.case).',
  'trusted_base': ['tools/gen_conn_exits.py: regex-level extractor of the exit sites of start / handle_yamux_substream / handle_negotiated_substream '
                   '/ handle_protocol_command (blanked strings and comments, matched braces); it can mis-classify a site only towards a mismatch with '
                   'the model table (then the check fails)',
